@@ -27,8 +27,32 @@ EPOCH = 1_000_000.0
 SOH = b"\x01"
 
 
-class Livelock(Exception):
-    pass
+class Livelock(KeyboardInterrupt):
+    """The library did not give control back (a task spinning without yielding) or the loop
+    never became idle.  Derived from KeyboardInterrupt so that neither the library's
+    `except Exception` handlers nor asyncio swallow it."""
+
+
+import signal as _signal
+
+
+class watchdog:
+    """with watchdog(seconds): ...  raises Livelock inside whatever is running."""
+
+    def __init__(self, seconds):
+        self.seconds = seconds
+
+    def _fire(self, *a):
+        raise Livelock("no return to the driver within %ss of real time (task spinning without yielding?)" % self.seconds)
+
+    def __enter__(self):
+        self.old = _signal.signal(_signal.SIGALRM, self._fire)
+        _signal.setitimer(_signal.ITIMER_REAL, self.seconds)
+
+    def __exit__(self, *a):
+        _signal.setitimer(_signal.ITIMER_REAL, 0)
+        _signal.signal(_signal.SIGALRM, self.old)
+        return False
 
 
 class VLoop(asyncio.SelectorEventLoop):
